@@ -31,7 +31,9 @@ template<class M> void fillParams(Prng& r, M& m) {
 
 // common observables of a vector->vector model; `dimOk` guards the evaluation against a restored
 // object whose internal dimensions do not fit the probes (no size checks under NDEBUG).
-template<class M> void obsModel(Obs& o, M const& m, RealMatrix const& probes, bool dimOk) {
+// `singleOk`: also use the single-pattern eval (skipped for degenerate 0-sized matrices, for which
+// OpenBLAS' dgemv prints an "illegal value" diagnostic on stdout).
+template<class M> void obsModel(Obs& o, M const& m, RealMatrix const& probes, bool dimOk, bool singleOk = true) {
 	o.vec("param", m.parameterVector());
 	o.u("numberOfParameters", m.numberOfParameters());
 	o.shape("inputShape", m.inputShape());
@@ -41,7 +43,7 @@ template<class M> void obsModel(Obs& o, M const& m, RealMatrix const& probes, bo
 		RealMatrix out;
 		m.eval(probes, out);
 		o.mat("eval", out);
-		for (std::size_t i = 0; i != probes.size1(); ++i) {
+		for (std::size_t i = 0; singleOk && i != probes.size1(); ++i) {
 			RealVector x = row(probes, i);
 			RealVector y;
 			m.eval(x, y);
@@ -56,7 +58,7 @@ template<class LM> void obsLinear(Obs& o, LM const& m, RealMatrix const& probes)
 	o.mat("matrix", m.matrix());
 	o.vec("offset", m.offset());
 	bool ok = m.matrix().size2() == probes.size2() && (!m.hasOffset() || m.offset().size() == m.matrix().size1());
-	obsModel(o, m, probes, ok);
+	obsModel(o, m, probes, ok, m.matrix().size1() != 0 && m.matrix().size2() != 0);
 }
 
 template<class LM> void linearCase(Ctx& c, std::string const& variant) {
